@@ -25,6 +25,7 @@ mod c15;
 mod c16;
 mod c17;
 mod c18;
+mod c18proc;
 mod c19;
 mod c20;
 mod c20cli;
